@@ -35,6 +35,11 @@ Known finding (open, sig ``C31.escaped_dollar_tail``): a pattern whose last lite
 escaped ``$`` (``re.escape("/p$")``) is taken as already anchored: ``/p$zzz`` matches it and
 ``reverse_url`` returns ``'/p\\\\'`` (findings_inbox/C31-escaped-dollar-tail.md).
 
+Open finding (sig ``C31.reverse_raises.nested_application_keyerror``): ``ReversibleRuleRouter.reverse_url`` asks every nested
+ReversibleRouter target in turn; an ``Application`` target that does not know the name raises ``KeyError`` instead of returning
+``None`` (as ``ReversibleRouter.reverse_url`` documents), so a named rule placed after a nested Application cannot be reversed
+(findings_inbox/C31-nested-application-keyerror.md).
+
 Replays: replays/C31/F15-*.json fail on the pre-fix snapshot 59274db (reverse_url raised ValueError /
 TypeError for a literal '%') and pass now; replays/C31/open-escaped-dollar-tail.json reproduces the open finding.
 
@@ -52,6 +57,15 @@ Sensitivity (quick tier, seed 1, one mutant at a time on a scratch copy; all cau
        -> caught at seeds 1, 2, 3 after pre-compiled pattern objects were added as rule-construction forms 3-5
           (C31.reverse_not_matching_own_rule: re.compile(r"/cost\\$") reversed to "/cost\\"); MISSED before, when rules
           were only built from pattern strings.  replays/C31/compiled-escaped-dollar.json pins it.
+  M9 RuleRouter.add_rules calls process_rule() but appends the ORIGINAL rule (the Rule returned by the hook is dropped)
+       -> caught at seeds 1, 2, 3 within 100 cases after router subclasses overriding the documented hooks became a generated
+          dimension (C31.first_match: /mnt/a -> 404, or the unwrapped target answers); MISSED before: only stock RuleRouter /
+          Application were built.  replays/C31/process-rule-returns-new-rule.json pins it.
+
+Router-hook dimension (top-level RuleRouter shape): a ReversibleRuleRouter subclass whose process_rule returns a NEW Rule mounted
+under /mnt (new_rule), edits the matcher in place (in_place), returns a NEW Rule with a wrapped callable target (wrap_target), or
+whose get_target_delegate resolves opaque CallToken targets (gtd); nested routers use the same class; the reference router applies
+the same transformation, and reverse_url on the hooked router must route back.
 """
 import json
 import re
@@ -60,7 +74,10 @@ import urllib.parse
 from hypothesis import strategies as st
 
 from tornado.httputil import HTTPHeaders, ResponseStartLine
-from tornado.routing import AnyMatches, HostMatches, PathMatches, Rule, RuleRouter
+import functools
+
+from tornado.httputil import HTTPServerConnectionDelegate
+from tornado.routing import AnyMatches, HostMatches, PathMatches, ReversibleRuleRouter, Rule, RuleRouter
 from tornado.web import Application, RequestHandler, URLSpec
 
 from vlib.httpharness import roundtrip
@@ -220,7 +237,7 @@ def numbered(case):
     if case["top"] == "app":
         c2["app"] = _number_app(case["app"], True, leaves)
     else:
-        c2["router"] = _number_rules(case["router"], False, leaves)
+        c2["router"] = _number_rules(case["router"], case.get("router_hook", "none") != "none", leaves)
     return c2, leaves
 
 
@@ -285,26 +302,41 @@ def arg_s(key):
     return st.text(alphabet="abz", max_size=4)
 
 
+# Router subclasses overriding the documented hooks (RuleRouter.process_rule / get_target_delegate):
+#   new_rule     process_rule returns a NEW Rule whose path pattern is mounted under MOUNT
+#   in_place     process_rule edits rule.matcher in place and returns the same Rule
+#   wrap_target  process_rule returns a NEW Rule whose callable target is wrapped (the echo then carries via="wrapped")
+#   gtd          targets are opaque CallToken objects that only the overridden get_target_delegate understands
+HOOKS = ["none", "new_rule", "new_rule", "in_place", "wrap_target", "gtd"]
+PREFIX_HOOKS = ("new_rule", "in_place")
+MOUNT = "/mnt"
+
+
 @st.composite
 def case_s(draw):
-    top = draw(st.sampled_from(["app", "app", "app", "router"]))
+    top = draw(st.sampled_from(["app", "app", "app", "router", "router"]))
     case = {"top": top}
     if top == "app":
         case["app"] = draw(appspec_s)
     else:
         case["router"] = draw(router_rules_s(1))
+        case["router_hook"] = draw(st.sampled_from(HOOKS))
+    prefixed = case.get("router_hook") in PREFIX_HOOKS
     leaves = all_leaves(case)
     reqs = []
     for _ in range(6):
         if leaves and draw(st.sampled_from([True] * 8 + [False] * 2)):
             nd, _rev = draw(st.sampled_from(leaves))
-            path = mutate(draw, instantiate(draw, nd[1], nd[2]))
+            path = instantiate(draw, nd[1], nd[2])
+            if prefixed and nd[0] == "call" and draw(st.sampled_from([True] * 4 + [False])):
+                path = MOUNT + path
+            path = mutate(draw, path)
         else:
             path = "/" + "/".join(draw(st.lists(st.sampled_from(LITS + SAMPLES["seg"]), max_size=3)))
         reqs.append((draw(st.sampled_from(HOSTS)), path, draw(st.sampled_from([False] * 9 + [True]))))
     case["requests"] = reqs
     revs = []
-    named = [i for i, (nd, rev) in enumerate(leaves) if rev and nd[0] == "leaf" and nd[3]]
+    named = [i for i, (nd, rev) in enumerate(leaves) if rev and ((nd[0] == "leaf" and nd[3]) or nd[0] == "call")]
     for _ in range(3):
         if not named:
             break
@@ -328,14 +360,44 @@ class Marker(RequestHandler):
 
 
 def make_callable(rid):
-    def target(request, path_args=None, path_kwargs=None, **kw):
+    def target(request, path_args=None, path_kwargs=None, via=None, **kw):
         dec = lambda b: None if b is None else b.decode("latin-1")
-        body = json.dumps({"rid": rid, "raw": True, "args": [dec(a) for a in (path_args or [])],
-                           "kwargs": {k: dec(v) for k, v in (path_kwargs or {}).items()}}).encode()
+        d = {"rid": rid, "raw": True, "args": [dec(a) for a in (path_args or [])],
+             "kwargs": {k: dec(v) for k, v in (path_kwargs or {}).items()}}
+        if via is not None:
+            d["via"] = via
+        body = json.dumps(d).encode()
         request.connection.write_headers(ResponseStartLine("HTTP/1.1", 200, "OK"),
                                          HTTPHeaders({"Content-Length": str(len(body))}), body)
         request.connection.finish()
     return target
+
+
+class CallToken:
+    """Opaque routing target understood only by HookRouter.get_target_delegate."""
+
+    def __init__(self, rid):
+        self.rid = rid
+
+
+class HookRouter(ReversibleRuleRouter):
+    def __init__(self, mode, rules):
+        self.mode = mode
+        super().__init__(rules)
+
+    def process_rule(self, rule):
+        if self.mode == "new_rule" and isinstance(rule.matcher, PathMatches):
+            rule = Rule(PathMatches(MOUNT + rule.matcher.regex.pattern), rule.target, rule.target_kwargs, rule.name)
+        elif self.mode == "in_place" and isinstance(rule.matcher, PathMatches):
+            rule.matcher = PathMatches(MOUNT + rule.matcher.regex.pattern)
+        elif self.mode == "wrap_target" and callable(rule.target) and not isinstance(rule.target, HTTPServerConnectionDelegate):
+            rule = Rule(rule.matcher, functools.partial(rule.target, via="wrapped"), rule.target_kwargs, rule.name)
+        return super().process_rule(rule)
+
+    def get_target_delegate(self, target, request, **target_params):
+        if isinstance(target, CallToken):
+            target = make_callable(target.rid)
+        return super().get_target_delegate(target, request, **target_params)
 
 
 def make_matcher(mkind, mpat):
@@ -347,8 +409,12 @@ def make_matcher(mkind, mpat):
 
 
 class Builder:
-    def __init__(self):
+    def __init__(self, hook="none"):
         self.apps = []
+        self.hook = hook
+
+    def router(self, children):
+        return RuleRouter(children) if self.hook == "none" else HookRouter(self.hook, children)
 
     def rules(self, nodes, in_app):
         out = []
@@ -370,10 +436,11 @@ class Builder:
                 else:
                     out.append(Rule(PathMatches(re.compile(pat + "$")), Marker, {"rid": rid}, name))
             elif nd[0] == "call":
-                out.append(Rule(PathMatches(pattern_of(nd[1], nd[2])), make_callable(nd[-1])))
+                target = CallToken(nd[-1]) if self.hook == "gtd" else make_callable(nd[-1])
+                out.append(Rule(PathMatches(pattern_of(nd[1], nd[2])), target, None, "n%d" % nd[-1] if self.hook != "none" else None))
             elif nd[0] == "nest":
                 children = self.rules(nd[3], in_app)
-                out.append(Rule(make_matcher(nd[1], nd[2]), children if in_app else RuleRouter(children)))
+                out.append(Rule(make_matcher(nd[1], nd[2]), children if in_app else self.router(children)))
             else:
                 out.append(Rule(make_matcher(nd[1], nd[2]), self.app(nd[3])))
         return out
@@ -399,6 +466,8 @@ def host_name_of(host):
 
 
 class Ref:
+    hook = "none"  # set per case by run_case (router subclasses overriding process_rule)
+
     def __init__(self, hn, path, xreal, quirk, prefix_mode=False):
         # prefix_mode: a pre-compiled pattern given without a trailing "$" (form 4) is undocumented; the two
         # consistent readings are "whole path" (fullmatch) and "what regex.match does" (prefix match)
@@ -416,23 +485,25 @@ class Ref:
             return self.pmatch(mpat) is not None
         return True
 
-    def rules(self, nodes):
+    def rules(self, nodes, in_router=False):
+        mount = MOUNT if (in_router and self.hook in PREFIX_HOOKS) else ""
         for nd in nodes:
             if nd[0] in ("leaf", "call"):
-                pat = pattern_of(nd[1], nd[2])
+                pat = mount + pattern_of(nd[1], nd[2])
                 if nd[0] == "leaf" and nd[4] == 4 and self.prefix_mode:
                     m = re.match(pat, self.path)
                 else:
                     m = self.pmatch(pat)
                 if m:
-                    return ("hit", nd[-1], nd[0], m)
+                    via = "wrapped" if (in_router and nd[0] == "call" and self.hook == "wrap_target") else None
+                    return ("hit", nd[-1], nd[0], m, via)
             elif nd[0] == "nest":
-                if self.matcher(nd[1], nd[2]):
-                    r = self.rules(nd[3])
+                if self.matcher(nd[1], (mount + nd[2]) if nd[1] == "path" else nd[2]):
+                    r = self.rules(nd[3], in_router)
                     if r:
                         return r
             else:
-                if self.matcher(nd[1], nd[2]):
+                if self.matcher(nd[1], (mount + nd[2]) if nd[1] == "path" else nd[2]):
                     return self.app(nd[3])
         return None
 
@@ -457,12 +528,12 @@ class Ref:
         """`case` must be the numbered copy."""
         if case["top"] == "app":
             return self.app(case["app"])
-        return self.rules(case["router"]) or ("404",)
+        return self.rules(case["router"], True) or ("404",)
 
 
 def expected_echo(hit):
     """-> (rid, args, kwargs, decodable)"""
-    _, rid, kind, m = hit
+    _, rid, kind, m = hit[:4]
     enc = "latin-1" if kind == "call" else "utf-8"
 
     def unq(s):
@@ -476,6 +547,10 @@ def expected_echo(hit):
         return rid, [unq(g) for g in m.groups()], {}, True
     except UnicodeDecodeError:
         return rid, None, None, False
+
+
+def via_of(hit):
+    return hit[4] if len(hit) > 4 else None
 
 
 def observe(ctx, server, host, target, xreal):
@@ -498,6 +573,8 @@ def observe(ctx, server, host, target, xreal):
     if r.code == 200:
         try:
             d = json.loads(r.body)
+            if "via" in d:
+                return ("echo", d["rid"], d["args"], d["kwargs"], d["via"])
             return ("echo", d["rid"], d["args"], d["kwargs"])
         except Exception:
             return ("status", 200)
@@ -513,6 +590,8 @@ def verdict(exp, obs):
     rid, args, kwargs, ok = expected_echo(exp)
     if not ok:
         return obs == ("status", 400)
+    if via_of(exp) is not None:
+        return obs == ("echo", rid, args, kwargs, via_of(exp))
     return obs == ("echo", rid, args, kwargs)
 
 
@@ -549,7 +628,9 @@ def run_case(ctx, case):
     nontrivial = False
     raw_case = case
     case, leaves = numbered(case)
-    b = Builder()
+    hook = case.get("router_hook", "none") if case["top"] == "router" else "none"
+    Ref.hook = hook
+    b = Builder(hook)
     if case["top"] == "app":
         server = b.app(case["app"])
         if case["app"]["blocks"]:
@@ -557,9 +638,10 @@ def run_case(ctx, case):
         if case["app"]["default_host"]:
             labels.add("default_host")
     else:
-        server = RuleRouter(b.rules(case["router"], False))
+        server = b.router(b.rules(case["router"], False))
         labels.add("top_rulerouter")
-    leaf_pats = [pattern_of(nd[1], nd[2]) for nd, _ in leaves]
+        labels.add("router_hook_" + hook)
+    leaf_pats = [(MOUNT if (hook in PREFIX_HOOKS and nd[0] == "call") else "") + pattern_of(nd[1], nd[2]) for nd, _ in leaves]
     dollar = has_dollar_tail(case)
     has_unanchored = any(nd[0] == "leaf" and nd[4] == 4 for nd, _ in leaves)
     if has_unanchored:
@@ -637,7 +719,7 @@ def run_case(ctx, case):
         pieces, optslash = nd[1], nd[2]
         name = "n%d" % idx
         pat = leaf_pats[idx]
-        app = b.apps[-1]
+        app = b.apps[-1] if case["top"] == "app" else server
         keys = [p[1] for p in pieces if p[0] == "grp"]
         rev_ok = is_reversible(pieces, optslash)
         sig = "C31.escaped_dollar_tail" if pat.endswith("$") else None
@@ -648,7 +730,12 @@ def run_case(ctx, case):
             if not rev_ok and isinstance(e, (ValueError, AssertionError)):
                 labels.add("reverse_unsupported_either")
                 continue
-            if rev_ok:
+            if isinstance(e, KeyError) and nd[0] == "call" and b.apps:
+                # an Application nested in the ReversibleRuleRouter raises KeyError for a name it does not know
+                # instead of returning None as the ReversibleRouter interface says (open finding)
+                labels.add("reverse_keyerror_from_nested_application")
+                ctx.fail("C31.reverse_raises", dict(detail, exc=repr(e)), sig="C31.reverse_raises.nested_application_keyerror")
+            elif rev_ok:
                 ctx.fail("C31.reverse_raises", dict(detail, exc=repr(e)), sig=sig)
             else:
                 ctx.fail("C31.reverse_raises_unexpected_type", dict(detail, exc=repr(e)), sig=sig)
@@ -661,7 +748,9 @@ def run_case(ctx, case):
             labels.add("reverse_unrepresentable_skipped")
             continue
         labels.add("reverse")
-        if nd[4] in (3, 4, 5):
+        if nd[0] == "call":
+            labels.add("reverse_hook_router")
+        if nd[0] == "leaf" and nd[4] in (3, 4, 5):
             labels.add("reverse_compiled_pattern")
             if pat.endswith("$"):
                 labels.add("reverse_compiled_escaped_dollar_tail")
@@ -704,7 +793,10 @@ def run_case(ctx, case):
             continue
         obs = observe(ctx, server, host, p, False)
         named_groups = [pc[2] for pc in pieces if pc[0] == "grp" and pc[2]]
-        exp_obs = ("echo", idx, [], dict(zip(named_groups, want))) if named_groups else ("echo", idx, want, {})
+        wobs = [w.encode("utf-8").decode("latin-1") for w in want] if nd[0] == "call" else want  # callables echo raw bytes
+        exp_obs = ("echo", idx, [], dict(zip(named_groups, wobs))) if named_groups else ("echo", idx, wobs, {})
+        if nd[0] == "call" and hook == "wrap_target":
+            exp_obs = exp_obs + ("wrapped",)
         if obs != exp_obs and obs[0] != "unparsed":
             if dollar and verdict(Ref(host_name_of(host), rpath, False, True).route(case), obs):
                 sig = "C31.escaped_dollar_tail"
@@ -716,12 +808,13 @@ def run_case(ctx, case):
 PARTS = {"main": run_case}
 REQUIRED = ["overlap_order", "nested_router", "host_rule", "reverse_with_percent_literal", "reverse_non_ascii",
             "reverse_routed_back", "escaped_capture", "add_handlers", "default_host", "top_rulerouter", "callable_target",
-            "compiled_unanchored_rule", "compiled_anchored_rule", "reverse_compiled_pattern", "reverse_compiled_escaped_dollar_tail"]
+            "compiled_unanchored_rule", "compiled_anchored_rule", "reverse_compiled_pattern", "reverse_compiled_escaped_dollar_tail",
+            "router_hook_new_rule", "router_hook_in_place", "router_hook_wrap_target", "router_hook_gtd", "reverse_hook_router"]
 
 
 def main(ctx):
     ctx.run_replays(PARTS)
-    ctx.explore(case_s(), run_case, ctx.n(800, 80000), name="main")
+    ctx.explore(case_s(), run_case, ctx.n(700, 80000), name="main")
     for lab in REQUIRED:
         if not ctx.violations and not ctx.labels.get(lab):
             ctx.warnings.append("required label never hit: %s" % lab)
